@@ -170,8 +170,18 @@ func vcliC17Session(r *verifrt.R, c *verifrt.Case, simple bool) {
 			// one bodiless request in four is a HEAD
 			s.NewReq([]string{"GET", "GET", "GET", "HEAD"}[rng.IntN(4)], -1, false, 0, false, false)
 		} else {
-			s.NewReq("POST", int64(p.Bodies[i]), rng.IntN(2) == 0, 0, rng.IntN(2) == 0, true)
+			rq := s.NewReq("POST", int64(p.Bodies[i]), rng.IntN(2) == 0, 0, rng.IntN(2) == 0, true)
+			if rng.IntN(3) == 0 {
+				// trailers that are announced and never given a value: nothing to send for them,
+				// the request still has to be ended (END_STREAM) so that its stream can close
+				rq.Req.Trailer = http.Header{"X-Unset-Trailer": nil}
+				r.Event("uploads_with_declared_but_unset_trailers", 1)
+			}
 		}
+	}
+	reqOf := map[string]*vcliReq{}
+	for _, rq := range s.Reqs {
+		reqOf[rq.Tag] = rq
 	}
 	next := 0
 	canceled := map[*vcliReq]bool{}
@@ -345,6 +355,21 @@ func vcliC17Session(r *verifrt.R, c *verifrt.Case, simple bool) {
 				continue
 			}
 			r.Event("quiescence_checks", 1)
+			// a request whose whole body is on the wire has been ended by the client: otherwise its
+			// stream stays open for the server and keeps counting against the limit it advertised
+			if s.Delay.sleepers.Load() == 0 {
+				for _, st := range sh.order {
+					rq := reqOf[st.tag]
+					if rq == nil || rq.BodyLen < 0 || !st.hdrDone || st.closed || st.cliReset || st.srvReset || canceled[rq] {
+						continue
+					}
+					if st.dataBytes == rq.BodyLen && !st.cliEnded {
+						sc.viol("request-not-ended-after-its-whole-body", "at quiescence stream %d (request %s) has all %d body bytes on the wire and the client has not sent END_STREAM: the stream stays open in the server's view (open streams there: %d)", st.id, st.tag, rq.BodyLen, sh.openCount)
+					} else if st.cliEnded && rq.BodyLen > 0 {
+						r.Event("uploads_seen_ended_at_quiescence", 1)
+					}
+				}
+			}
 			full := sh.maxStreams != vcliUnlimited && int64(sh.openCount) >= sh.maxStreams
 			w := waiting()
 			if p.Strict {
